@@ -703,6 +703,7 @@ func runMain(c *hlib.Ctx) *hlib.Run {
 		switch {
 		case fails == 3:
 			last.Class = "real-binary:" + last.Class
+			last.Flaky = true // depends on the operating system's scheduler, not on the choice vector
 			last.Message = "observed on the real binary run as an OS process (3 of 3 executions):\n" + last.Message
 			out.Violation = last
 		case fails > 0:
